@@ -35,7 +35,10 @@ META = {
                   "border loop of the disk claim (no theorem; the former lia identity is no longer an obligation). "
                   "REFUTED: C16_disk_refuted - a closed sphere with two ADJACENT singular vertices is returned uncut "
                   "(the guard fails: one cut edge; known finding). The dual Dijkstra tree and the singularity "
-                  "spanning tree are validated per run (spanning-tree certificate) instead of being modelled. The "
+                  "spanning tree are validated per run (spanning-tree certificate) instead of being modelled; their "
+                  "relaxation tests are extracted and C16_dual_relaxation_keeps_settled_faces proves that a settled "
+                  "face keeps its parent edge across zero-length dual edges. Inputs include geometrically degenerate "
+                  "ones (two-sided flat sheets, coincident vertices, all-equal coordinates). The "
                   "singular vertices are handed to the constructor in every legal container form (one-shot iterators "
                   "included) and as a list completed between construction and run().",
     "level_note": "Trusted: Coq kernel + vm_compute; the cutting.py translator; the correspondence harness (mesh "
@@ -279,6 +282,23 @@ def handcrafted():
     nv, faces = G.seed_grid(4, 5, True, True, diag=1)
     out.append({"nv": nv, "faces": faces, "coords": [[(7 * v) % 11, (5 * v) % 13, v] for v in range(nv)],
                 "singus": [6, 13], "feat": None, "form": "iter"})
+    # geometrically degenerate but combinatorially valid inputs: two-sided flat sheets (double covers glued along the
+    # rim: closed, faces across a rim edge have the same barycentre), coincident vertices, all-equal coordinates
+    nvf, ff = G.seed_fan(6)
+    cof = [[0, 0, 0]] + [[(3, 0), (2, 2), (0, 3), (-2, 2), (-3, 0), (0, -3)][k] + (0,) for k in range(6)]
+    cof = [list(p) for p in cof]
+    dc = G.double_cover(nvf, ff, cof)
+    for sg in ([], [1, 4], [0, 7], [1, 3, 5]):
+        out.append({"nv": dc[0], "faces": dc[1], "coords": dc[2], "singus": sg, "feat": None})
+    nva, fa = G.seed_grid(4, 3, wrap_i=True, diag=1)
+    dca = G.double_cover(nva, fa, [[(5 * v) % 7, (3 * v) % 5, v % 3] for v in range(nva)])
+    if dca is not None:
+        for sg in ([], [1], [1, 10]):
+            out.append({"nv": dca[0], "faces": dca[1], "coords": dca[2], "singus": sg, "feat": None})
+    nvg, fg = G.seed_grid(4, 4, diag=0)
+    for co in ([[0, 0, 0]] * nvg, [[v % 2, 0, 0] for v in range(nvg)]):
+        out.append({"nv": nvg, "faces": fg, "coords": [list(p) for p in co], "singus": [5, 10], "feat": None})
+        out.append({"nv": nvg, "faces": fg, "coords": [list(p) for p in co], "singus": [5], "feat": [[5, 6], [6, 10]]})
     for c in out:
         c.setdefault("form", "list")
         c.setdefault("late", 0)
@@ -292,7 +312,9 @@ def run(ctx):
     n_gen = 300 if quick else 8000
     ctx.rule = ("connected oriented manifold triangulated surfaces (tetra/octa/bipyramid/fan/grid/annulus/torus/"
                 "genus-2 and torus#sphere sums, 0-3 opened holes, random 1-3 splits, edge splits, flips, deletions, "
-                "ears; random renumbering, rotation, shuffle; integer coordinates random/planar/tie-heavy), <= 80 "
+                "ears; 30% of the small bordered ones doubled into a closed two-sided sheet (genus 2g+b-1) whose two sheets "
+                "have the same positions; random renumbering, rotation, shuffle; integer coordinates "
+                "random/planar/tie-heavy and 12% degenerate: all equal, a few coincident points, collinear), <= 80 "
                 "faces; singular sets none/one/two/adjacent/many/on the border/mixed/all, handed to the constructor as "
                 "list/tuple/set/frozenset/numpy array/dict/vertex Attribute/generator/iterator/filter/map object "
                 "(60% non-list) or as a list completed after construction; 40% with a feature "
@@ -346,6 +368,8 @@ def run(ctx):
         ctx.count("singularities=%s" % (len(set(c["singus"])) if len(set(c["singus"])) < 4 else "4+"))
         ctx.count("features=%s" % (c.get("feat") is not None))
         ctx.count("container=%s" % (c.get("form") or "list"))
+        ctx.count("geometry=%s" % ("two-sided" if "two-sided" in str(i.get("coords")) else
+                                   ("degenerate" if i.get("coords") in G.DEGENERATE else "generic")))
         if c.get("late"):
             ctx.count("list completed after construction")
         ctx.count("seed=%s" % i.get("seed_kind"))
